@@ -261,6 +261,8 @@ def async_generator(I, fv, args, kwargs):
     env_step(I)
     cs.havoc_modifies(I, c, sfr, c.modifies)
     I.hobj(items).meta["raises_at_end"] = list(c.raises)
+    for ev_name, src in c.emits.items():
+        I.path.ghost.setdefault("events", {}).setdefault(ev_name, []).append(cs.snapshot(I, I.ev(c.expr(src), sfr), deep_inst=True))
     return items
 
 
